@@ -58,8 +58,15 @@ def run(ctx, rep: Report, deep: bool = False):
     budget = 400 if (ctx.quick and not deep) else 4000
     for nt in range(1, 7):
         for rep_i in range(1 if ctx.quick and not deep else 4):
-            lines, _ = FC.canonical(rng, nt)
+            name = rng.choice(FC.NAMES)  # S120: bin names with blanks, as ripping tools write them
+            lines, _ = FC.canonical(rng, nt, name=name)
             cm = FC.meaning_real(list(lines))
+            rep.feat("canonical_sheets")
+            if " " in name:
+                rep.feat("bin_name_with_blanks")
+            want = FC.intended(lines)
+            if cm != want:  # the canonical sheet itself must be read as written (S120), not only consistently
+                rep.findings.append(Finding("cue-canonical-misread", {"canonical": lines, "got": str(cm)[:500], "want": str(want)[:500]}))
             cases.append(Case(FC.op_parse(lines), FC.parse_real(lines)))
             for kind, v in FC.cosmetic_variants(rng, lines, budget):
                 cases.append(Case(FC.op_parse(v), FC.parse_real(v), {"kind": list(kind)}))
@@ -67,7 +74,7 @@ def run(ctx, rep: Report, deep: bool = False):
                 rep.feat("variant_" + kind[0])
     # malformed / odd sheets: model vs impl only
     for i in range(ctx.n(300, 3000)):
-        lines, _ = FC.canonical(rng, rng.randint(1, 4))
+        lines, _ = FC.canonical(rng, rng.randint(1, 4), name=rng.choice(FC.NAMES))
         for _ in range(rng.randint(1, 3)):
             m = rng.randrange(5)
             j = rng.randrange(len(lines))
@@ -92,7 +99,7 @@ def run(ctx, rep: Report, deep: bool = False):
     text_probe(rep, rng)
     if ctx.model_available:
         compare_family(rep, "cue", cases, nontrivial=lambda c: "track" in c.impl)
-    rep.required_features = ["variant_case", "variant_blanks", "variant_blankline", "variant_unknown", "variant_mixed", "malformed_sheets"]
+    rep.required_features = ["bin_name_with_blanks", "variant_case", "variant_blanks", "variant_blankline", "variant_unknown", "variant_mixed", "malformed_sheets"]
 
 
 def search(ctx, rep: Report):
